@@ -44,6 +44,7 @@ CASE_TYPES = {
     "chk_unsorted": "list (list Q) * list (list nat) * Q * Q * Q * list yield",
     "chk_weights": "list (list Q) * list (list nat) * num * list nat * (Q * Q * Q) * res wdict * list (nat * nat * list Q)",
     "chk_public": "list (list Q) * list (list nat) * num * list nat * (Q * Q * Q) * res wdict",
+    "chk_public_set": "list (list Q) * list (list nat) * num * list nat * (Q * Q * Q) * res wdict",
     "chk_expected": "list (list Q) * list (list nat) * num * Q * list (key * Q)",
 }
 ATOL = Fraction(1, 10**14)
@@ -438,6 +439,9 @@ def tols_for(N, calls, exact=True):
 def weights_case(w, group, probs, N, policy, exact=True, extra=None, perms=None):
     """run _generate_qpd_weights under the stub and add one chk_weights case; returns (r, stub, json)."""
     r, stub = run_weights(probs, N, policy)
+    if len(stub.tape) > 3000 or any(k >= 4000 for _, k, _ in stub.calls):
+        w.count("weights.oversize_skipped", group)        # too many draws for a Coq literal; not a verdict
+        return r, stub, None
     perms = argsort_perms(probs) if perms is None else perms
     w.contract("argsort_is_descending_permutation", perms_ok(probs, perms))
     w.contract("choice_called_with_a_distribution", stub.contract_ok)
@@ -459,6 +463,33 @@ def weights_case(w, group, probs, N, policy, exact=True, extra=None, perms=None)
           (coq_probs(probs), perms, coq_num(N), list(stub.tape), tuple(cq(t) for t in tl), exp, calls),
           js, nontrivial=(r[0] == "ok" and len(items) > 1))
     return r, stub, js
+
+
+def branch_of(probs, N, r, stub):
+    """which branch of _generate_qpd_weights the request took (reconstructed from the outside, for the evidence)"""
+    if r[0] != "ok":
+        return r[0]
+    if not isinstance(N, Fraction):
+        return "all-exact(inf)"
+    thr = 1 / N
+    sm = Fraction(1)
+    for v in probs:
+        big = [x for x in v if x > ATOL]
+        if not big:
+            return "?"
+        sm *= min(big)
+    if sm >= thr:
+        return "all-exact"
+    types = {v[1] for v in r[1].values()}
+    if stub.calls:
+        return "sampled+exact" if WeightType.EXACT in types else "sampled-only"
+    lg = Fraction(1)
+    for v in probs:
+        lg *= max(v)
+    jt = joint_table(probs) if n_joint(probs) <= 6000 else {}
+    if any(tuple(int(i) for i in k) in jt and jt[tuple(int(i) for i in k)] < thr for k in r[1]):
+        return "single-leftover"
+    return "nothing-left-to-sample"
 
 
 def outcome_class(r, stub):
@@ -531,6 +562,8 @@ def generate(rng, tier, outdir):
     while done < n_weights and attempts < 20 * n_weights:
         attempts += 1
         probs, K = gen_probs(rng, tier)
+        if attempts % 97 == 5:
+            probs, K = [], 0                      # no gate was cut: one empty joint map of probability 1
         N = gen_N(rng, K)
         if not budget_ok(K, N) or not threshold_safe(N, K):
             skipped += 1
@@ -540,8 +573,11 @@ def generate(rng, tier, outdir):
             skipped += 1
             continue
         r, stub, js = weights_case(w, "weights", probs, N, seeded_policy(rng))
+        if js is None:
+            continue
         done += 1
         w.count("weights.outcome", outcome_class(r, stub))
+        w.count("weights.branch", branch_of(probs, N, r, stub))
         w.count("weights.bases", len(probs))
         w.count("weights.N", "inf" if N == "inf" else ("integer" if N.denominator == 1 else "fractional"))
         w.count("weights.samples_needed", min(stub.calls[0][1], 33) if stub.calls else 0)
@@ -554,8 +590,10 @@ def generate(rng, tier, outdir):
     bad_N = ["nan", "-inf", Fraction(0), Fraction(1, 2), Fraction(-3), Fraction(1) - Fraction(1, 1 << 53), Fraction(-1, 4)]
     for it in range(40 if quick else 400):
         probs, K = gen_probs(rng, tier, force_tiny=False)
-        mode = int(rng.integers(0, 4))
+        mode = int(rng.integers(0, 5))
         N = bad_N[int(rng.integers(0, len(bad_N)))] if mode < 2 else Fraction(int(rng.integers(1, 9)))
+        if mode == 4:      # a basis without maps: np.min of an empty array -> ValueError
+            probs[int(rng.integers(0, len(probs)))] = []
         if mode == 2:      # an all-zero basis: np.min of an empty selection -> ValueError
             j = int(rng.integers(0, len(probs)))
             probs[j] = [Fraction(0)] * len(probs[j])
@@ -566,7 +604,7 @@ def generate(rng, tier, outdir):
             continue
         r, stub, js = weights_case(w, "malformed", probs, N, seeded_policy(rng), extra=dict(malformed=True))
         w.count("malformed.outcome", r[0])
-        w.count("malformed.kind", ["bad N", "bad N", "zero basis", "sub-cutoff basis"][mode])
+        w.count("malformed.kind", ["bad N", "bad N", "zero basis", "sub-cutoff basis", "empty basis"][mode])
 
     # ---------------- exhaustive law: every answer sequence ----------------
     law_done = 0
@@ -601,8 +639,19 @@ def generate(rng, tier, outdir):
         w.count("law.leaves", len(leaves))
         w.count("law.samples_needed", leaves[0][1].calls[0][1])
 
+    w.contract("law_stream_nonempty", law_done > 0)
     gen_public(rng, tier, w, n_public)
     gen_gates(rng, tier, w, n_gates)
+    gen_gates_public(rng, tier, w, max(6, n_gates // 4))
+    # the property-level oracle must accept what the unchanged tree produces (a spread sample of all cases)
+    allc = [c[1] for g in w.groups.values() for c in g["cases"]]
+    step = max(1, len(allc) // (300 if quick else 1500))
+    for c in allc[::step]:
+        v = judge(c)
+        ok = not v.get("violates")
+        w.contract("judge_accepts_clean_case", ok)
+        if not ok and len(w.notes) < 8:
+            w.notes.append(f"judge flags a generated case ({c.get('kind')}): {v.get('detail')[:300]}")
     w.notes.append(f"float_ambiguous_or_oversize_skipped={skipped}")
     return w.finish(
         rule="dyadic probability vectors (1-4 bases x 1-8 maps, thorough up to 58; zeros, ties, entries 2^-44..2^-50 on both sides of the "
@@ -710,6 +759,9 @@ def gen_public(rng, tier, w, n):
             r, stub = rb, ChoiceStub(None)
         else:
             r, stub = run_public(rb[1], N, seeded_policy(rng), form)
+        if len(stub.tape) > 3000:
+            w.count("weights.oversize_skipped", "public")
+            continue
         perms = argsort_perms(probs)
         if r[0] == "ok":
             items = canon_dict(r[1])
@@ -728,12 +780,25 @@ def gen_public(rng, tier, w, n):
         w.count("public.types", "+".join(sorted({t for _, _, t in items})) if items else "-")
 
 
-def real_bases():
+def gate_table():
     from qiskit.circuit.library import CXGate, RZZGate, SwapGate, CZGate, RXXGate, CRXGate, iSwapGate
+    return {"cx": CXGate(), "rzz(0.3)": RZZGate(0.3), "swap": SwapGate(), "cz": CZGate(), "rxx(0.7)": RXXGate(0.7),
+            "crx(1.1)": CRXGate(1.1), "iswap": iSwapGate(), "rzz(pi)": RZZGate(math.pi), "rzz(pi/2)": RZZGate(math.pi / 2),
+            "crx(3.1)": CRXGate(3.1)}
+
+
+def spec_probabilities(coeffs):
+    """the property's sampling probabilities of a basis: |c_i| / sum_j |c_j|  (same summation order as a plain loop)"""
+    wts = np.abs(np.asarray(coeffs, dtype=float))
+    return wts / sum(wts)
+
+
+def real_bases():
+    """name -> (probabilities as specified from the coefficients, QPDBasis)"""
     out = {}
-    for name, g in [("cx", CXGate()), ("rzz(0.3)", RZZGate(0.3)), ("swap", SwapGate()), ("cz", CZGate()),
-                    ("rxx(0.7)", RXXGate(0.7)), ("crx(1.1)", CRXGate(1.1)), ("iswap", iSwapGate())]:
-        out[name] = [Fraction(float(p)) for p in QPDBasis.from_instruction(g).probabilities]
+    for name, g in gate_table().items():
+        b = QPDBasis.from_instruction(g)
+        out[name] = ([Fraction(float(p)) for p in spec_probabilities(b.coeffs)], b)
     return out
 
 
@@ -753,8 +818,8 @@ def level_products(probs):
 
 def gates_safe(probs, N):
     """no comparison of the implementation sits within rounding distance of its boundary."""
-    if any(0 < x < Fraction(1, 10**6) for v in probs for x in v):
-        return False
+    if any(Fraction(1, 10**15) <= x < Fraction(1, 10**6) for v in probs for x in v):
+        return False        # float residues far below the cut-off (sin(pi) ~ 1e-16) are fine, anything near it is not
     if not isinstance(N, Fraction):
         return True
     thr = 1 / N
@@ -773,26 +838,71 @@ def gates_safe(probs, N):
 def gen_gates(rng, tier, w, n):
     rb = real_bases()
     names = list(rb)
-    fixed = [["cx"], ["rzz(0.3)"], ["swap"], ["cx", "rzz(0.3)"], ["cx", "swap"], ["rzz(0.3)", "rzz(0.3)", "cx"]]
+    fixed = [["cx"], ["rzz(0.3)"], ["swap"], ["cx", "rzz(0.3)"], ["cx", "swap"], ["rzz(0.3)", "rzz(0.3)", "cx"], ["rzz(pi)", "cx"]]
     done = 0
     attempts = 0
     while done < n and attempts < 40 * n:
         attempts += 1
         combo = fixed[done] if done < len(fixed) else [names[int(i)] for i in rng.integers(0, len(names), size=int(rng.integers(1, 4)))]
-        probs = [rb[c] for c in combo]
+        probs = [rb[c][0] for c in combo]
+        w.contract("probabilities_are_abs_coeffs_over_kappa", all([Fraction(float(x)) for x in rb[c][1].probabilities] == rb[c][0] for c in combo))
         if n_joint(probs) > 4000:
             continue
         r0 = int(rng.integers(0, 10))
-        N = "inf" if r0 == 0 else Fraction(int(rng.integers(1, 40))) if r0 < 4 else Fraction(int(rng.integers(1, 3000))) if r0 < 7 else Fraction(int(rng.integers(2, 120)), 2)
+        N = ("inf" if r0 == 0 else Fraction(int(rng.integers(1, 40))) if r0 < 4 else Fraction(int(rng.integers(1, 3000))) if r0 < 6
+             else Fraction(int(rng.integers(2, 120)), 2) if r0 < 8
+             else Fraction(float(rng.choice([2.3, 6.000001, 17.9, 36.5, 100.7, 1000.7]))))
         if not gates_safe(probs, N):
             w.count("gates.skipped_near_boundary", "+".join(combo))
             continue
         if isinstance(N, Fraction) and N > 300 and sum(x * c for x, c in level_products(probs)[-1].items() if x < 1 / N) * N > 300:
             continue
         r, stub, js = weights_case(w, "gates", probs, N, seeded_policy(rng), exact=False, extra=dict(gates=combo))
+        if js is None:
+            continue
         done += 1
         w.count("gates.combo", "+".join(combo))
         w.count("gates.outcome", outcome_class(r, stub))
+
+
+def gen_gates_public(rng, tier, w, n):
+    """real bases through the PUBLIC generate_qpd_weights; the model gets the probabilities specified from the
+    coefficients, the implementation its own QPDBasis.probabilities."""
+    rb = real_bases()
+    names = [k for k in rb if k not in ("swap", "iswap")] + ["swap"]
+    done = 0
+    attempts = 0
+    while done < n and attempts < 40 * n:
+        attempts += 1
+        combo = [names[int(i)] for i in rng.integers(0, len(names), size=int(rng.integers(1, 3)))]
+        probs = [rb[c][0] for c in combo]
+        if n_joint(probs) > 4000:
+            continue
+        form = NUM_FORMS[int(rng.integers(0, len(NUM_FORMS)))]
+        N = Fraction(1000) if form == "default" else Fraction(int(rng.integers(1, 200)))
+        if not gates_safe(probs, N):
+            continue
+        if sum(x * c for x, c in level_products(probs)[-1].items() if x < 1 / N) * N > 300:
+            continue
+        r, stub = run_public([rb[c][1] for c in combo], N, seeded_policy(rng), form)
+        if len(stub.tape) > 3000:
+            w.count("weights.oversize_skipped", "gates-public")
+            continue
+        perms = argsort_perms(probs)
+        if r[0] == "ok":
+            items = canon_dict(r[1])
+            exp, impl = Res("ok", coq_dict(items)), ["ok", jdict(items)]
+        else:
+            items, exp, impl = [], Res(r[0]), [r[0], r[1]]
+        tl = tols_for(N, stub.calls, False)
+        w.add("gates-public", "chk_public_set",
+              (coq_probs(probs), perms, coq_num(N), list(stub.tape), tuple(cq(t) for t in tl), exp),
+              dict(kind="weights", public=True, from_instruction=combo, probs=[[jq(x) for x in v] for v in probs], N=jnum(N),
+                   tape=list(stub.tape), perms=perms, impl=impl, exact=False, form=form),
+              nontrivial=(len(items) > 1))
+        done += 1
+        w.count("gates-public.combo", "+".join(combo))
+        w.count("gates-public.form", form)
 
 
 # --------------------------------------------------------------------------------------
@@ -862,7 +972,61 @@ def judge_weights(case):
         slack = N * (tree_size(probs) + 1) * ATOL + (N / 10**13 if exact else N / 10**9)
         if abs(tot - N) > slack:
             problems.append(f"weights sum to {float(tot)!r} not N={float(N)} (deficit {float(N - tot):.3e}, slack {float(slack):.3e})")
+        tape = case.get("tape")
+        has_sampled = any(t == "S" for _, t in got.values())
+        if tape is not None and len(tape) == 0 and not has_sampled:
+            # no draw was made: the result is deterministic, so "expected weight = N*p" means weight = N*p for
+            # EVERY map of non-negligible probability (single-leftover shortcut, nothing-left-to-sample return)
+            for k, p in jt.items():
+                if p > ATOL * Fraction(101, 100) and (k not in got or abs(got[k][0] - N * p) > rel * N * p + N * ATOL):
+                    problems.append(f"no sampling took place, yet map {k} (p={float(p)!r}) has weight "
+                                    f"{float(got[k][0]) if k in got else None!r} instead of N*p={float(N * p)!r}")
+            for k, (wt, t) in got.items():
+                if k in jt and abs(wt - N * jt[k]) > rel * N * jt[k] + N * ATOL:
+                    problems.append(f"no sampling took place, yet entry {k} has weight {float(wt)!r} != N*p={float(N * jt[k])!r}")
+        # WeightType: EXACT = "given in proportion to its exact weight", SAMPLED = "determined through some sampling procedure"
+        if tape is not None:
+            for k, (wt, t) in got.items():
+                if k not in jt:
+                    continue
+                if len(tape) == 0 and t == "S":
+                    problems.append(f"entry {k} is typed SAMPLED although numpy.random.choice was never asked")
+                if len(tape) > 0 and jt[k] < thr - band and t != "S":
+                    problems.append(f"entry {k} (p < 1/N) came out of the sampler but is typed EXACT")
+        if tape is not None and len(tape) == 0 and has_sampled and not problems:
+            problems.extend(statistical_check(probs, N, jt, {k for k, p in jt.items() if p >= thr}))
     return dict(violates=bool(problems), detail="; ".join(problems[:6]) or "ok")
+
+
+def statistical_check(probs, N, jt, exact_keys, runs=2000):
+    """fallback when the result contains SAMPLED entries although the recording stub saw no call (the sampler went
+    around numpy.random.choice): unpatched runs over `runs` seeds; the mean weight of every non-exact map must be N*p
+    within 6 standard errors."""
+    if len(jt) > 600 or N > 256:
+        return []
+    arrs = arrays(probs)
+    sums = {k: 0.0 for k in jt}
+    sq = {k: 0.0 for k in jt}
+    for sd in range(runs):
+        np.random.seed(sd)
+        r = call_canon(W._generate_qpd_weights, arrs, float(N))
+        if r[0] != "ok":
+            return [f"unpatched run with seed {sd} ended with {r[0]}: {r[1]}"]
+        for k, v in r[1].items():
+            kk = tuple(int(i) for i in k)
+            if kk in sums:
+                sums[kk] += float(v[0])
+                sq[kk] += float(v[0]) ** 2
+    out = []
+    for k, p in jt.items():
+        if k in exact_keys:
+            continue
+        mean = sums[k] / runs
+        var = max(sq[k] / runs - mean * mean, 0.0)
+        se = math.sqrt(var / runs)
+        if abs(mean - float(N * p)) > 6 * se + 1e-9 * float(N):
+            out.append(f"statistical check ({runs} unpatched runs): map {k} mean weight {mean:.6g} != N*p = {float(N * p):.6g} (se {se:.3g})")
+    return out
 
 
 def judge_law(case):
@@ -887,7 +1051,8 @@ def judge_yields(case):
     (2) tail law implied by the tables (product of the table entries along the prefix, the base probabilities where no
         table was yielded; the top table is not normalised, so the product is the absolute mass): for every map below
         the threshold with p > cutoff the implied mass equals p, hence implied probability == p / (non-exact mass);
-    (3) no table zeroes an entry whose true conditional mass exceeds the 1e-14 cut-off."""
+    (3) no table zeroes an entry whose true conditional mass exceeds the 1e-14 cut-off times the number of table
+        entries at and below it (each of them may legitimately drop a conditional mass <= cutoff)."""
     probs = [[unq(x) for x in v] for v in case["probs"]]
     thr = unq(case["thr"])
     if case["kind"] == "sorted" and any(v != sorted(v, reverse=True) for v in probs):
@@ -942,8 +1107,11 @@ def judge_yields(case):
             if x != 0:
                 continue
             below = sum(p for k, p in jt.items() if k[:d + 1] == pre + (i,) and k not in want)
-            if below / pp > cut:
-                problems.append(f"table {pre} zeroes entry {i} whose conditional non-exact mass is {float(below / pp):.3e} > cutoff")
+            # the entry itself and every table entry below it may each drop a conditional mass <= cutoff
+            allowed = cut * (1 + tree_size(probs[d + 1:]))
+            if below / pp > allowed:
+                problems.append(f"table {pre} zeroes entry {i} whose conditional non-exact mass is {float(below / pp):.3e} "
+                                f"> {float(allowed):.3e} = cutoff * (entries at and below it)")
     return dict(violates=bool(problems), detail="; ".join(problems[:6]) or "ok")
 
 
@@ -983,7 +1151,10 @@ def rerun(case):
                 return tape[pos:pos + kk]
             supp = [i for i in range(n) if p[i] > 0] or [0]
             return (tape[pos:] + [supp[0]] * kk)[:kk]
-        if case.get("public"):
+        if case.get("from_instruction"):
+            gt = gate_table()
+            r, stub = run_public([QPDBasis.from_instruction(gt[c]) for c in case["from_instruction"]], N, pol, case.get("form", "float"))
+        elif case.get("public"):
             rb = call_canon(lambda: [make_basis(v, s, sg) for v, s, sg in zip(probs, case["scales"], case["signs"])])
             r, stub = (rb, None) if rb[0] != "ok" else run_public(rb[1], N, pol, case.get("form", "float"))
         else:
